@@ -8,6 +8,7 @@ import Gofasta.Driver.Sam
 import Gofasta.Driver.SamVar
 import Gofasta.Driver.C08
 import Gofasta.Driver.Fault
+import Gofasta.Driver.Csv
 namespace Gofasta.Driver
 
 def dispatch (c : Case) : Verdict :=
@@ -27,6 +28,7 @@ def dispatch (c : Case) : Verdict :=
   | "FAULT" => runFault c
   | "EXIT" => runExit c
   | "REORD" => runReord c
+  | "CSV" => runCsv c
   | _ => { agree := false, spec := "na", model := "unknown-property" }
 
 end Gofasta.Driver
